@@ -13,6 +13,7 @@ mod slicing;
 mod mergeh;
 mod sinkh;
 mod statsh;
+mod det;
 
 use serde_json::{json, Value};
 use std::io::{BufRead, BufReader, Write};
@@ -84,6 +85,7 @@ fn main() {
         "merge" => mergeh::run_case,
         "sink" => sinkh::run_case,
         "stats" => statsh::run_case,
+        "det" => det::run_case,
         other => {
             eprintln!("unknown subcommand {}", other);
             std::process::exit(2);
